@@ -110,30 +110,41 @@ func group[T Opcoder](opcodes []opcode[T]) ([]maskGroup[T], error) {
 	return groups, nil
 }
 
+// conflict checks if there is a sequence of bytes which is matched by both o1
+// and o2. This happens if and only if masked bytes of o1 and o2 are equal in
+// those bits which are set in both masks. If one opcode is shorter, only the
+// common prefix is taken into account as any longer sequence of bytes extending
+// the shorter opcode is still matched by the shorter one.
+func conflict[T Opcoder](o1, o2 opcode[T]) bool {
+	l := len(o1.masked)
+	if l2 := len(o2.masked); l2 < l {
+		l = l2
+	}
+
+	for i := 0; i < l; i++ {
+		common := o1.opcode.Mask[i] & o2.opcode.Mask[i]
+		if (o1.masked[i]^o2.masked[i])&common != 0 {
+			return false
+		}
+	}
+
+	return true
+}
+
 // checkConflicts asserts that no instruction conflicts with one another.
 //
-// The non-conflicting check is to be full n^2 algorithm. Please note that we
-// cannot match only for j which is greater than i as instructions can be prefix
-// of one another. In other words, the relation of being conflicting is in
-// general non-symmetrical. This holds even in case all instructions have the
-// same length as mask of one instruction can be bitwise subset of another mask.
+// Opcodes within a single group are already known not to conflict, so only
+// opcodes from different groups are compared. Bits which are not part of the
+// mask of an opcode can have any value in matched bytes, so those cannot be
+// used to tell two opcodes apart.
 func checkConflicts[T Opcoder](groups []maskGroup[T]) error {
-	// Make sure that no pair of opcodes conflicts.
-	//
-	// This has to be full n^2 algorithm - we cannot match only for j which
-	// is greater than i as instructions can be prefix of one another. In
-	// other words, the relation of being conflicting is in general
-	// non-symmetrical.
 	for i, gi := range groups {
-		for j, gj := range groups {
-			if i == j {
-				continue
-			}
-
-			for _, o := range gj.opcodes {
-				opc, ok := gi.matchInstruction(o.opcode.Bytes)
-				if ok {
-					return duplicateOpcodeErr(o, opc)
+		for _, gj := range groups[i+1:] {
+			for _, oi := range gi.opcodes {
+				for _, oj := range gj.opcodes {
+					if conflict(oi, oj) {
+						return duplicateOpcodeErr(oi, oj)
+					}
 				}
 			}
 		}
